@@ -108,7 +108,7 @@ def report(prop, h, args, seed, jobs, results, known, pre_res, wall):
         if key in seen:
             continue
         seen.add(key)
-        if len(lines) >= 10:
+        if len(lines) >= int(os.environ.get("VERIF_MAXREPORT", "10")):
             break
         rp = {
             "property": prop, "harness": prop, "spec": spec_by_id.get(jid, {"id": jid}), "values": v["values"],
